@@ -213,6 +213,76 @@ def canon_impl(c, r):
             "groups": None if r.get("groups") is None else [impl_items(g) for g in r["groups"]]}
 
 
+# ---------------------------------------------------------------- leading `::` (outside the model's input language): a python flattener
+
+def py_leaves(text):
+    """the set of (visibility, path [as alias]) named by the `use` declarations of text; `a::{self}` = `a`; a leading `::` is part of the root"""
+    import re
+    out = set()
+
+    def split_top(s):
+        parts, d, cur = [], 0, ""
+        for ch in s:
+            if ch == "{":
+                d += 1
+            elif ch == "}":
+                d -= 1
+            if ch == "," and d == 0:
+                parts.append(cur)
+                cur = ""
+            else:
+                cur += ch
+        if cur.strip():
+            parts.append(cur)
+        return [x.strip() for x in parts if x.strip()]
+
+    def walk(prefix, t, vis):
+        t = t.strip()
+        m = re.match(r"^(.*?)(?:::)?\{(.*)\}$", t, re.S)
+        if m and t.endswith("}") and "{" in t:
+            i = t.index("{")
+            head = t[:i].rstrip()
+            head = head[:-2] if head.endswith("::") else head
+            for sub in split_top(t[i + 1:-1]):
+                walk(prefix + ([head] if head else []), sub, vis)
+            return
+        segs = prefix + [t]
+        path = "::".join(x for x in segs if x != "").replace(":: ::", "::")
+        path = re.sub(r"\s+", " ", path)
+        mm = re.match(r"^(.*)::self( as \w+)?$", path)
+        if mm:
+            path = mm.group(1) + (mm.group(2) or "")
+        out.add((vis, path))
+    for m in re.finditer(r"(?m)^\s*(pub(?:\([^)]*\))?\s+)?use\s+([^;]*);", text):
+        walk([], re.sub(r"\s+", " ", m.group(2).replace("\n", " ")).replace(" ::", "::").replace(":: ", "::"), (m.group(1) or "").strip())
+    return out
+
+
+def colon_cases(tier, seed):
+    rnd = common.rng(seed + 77, PROP)
+    cases = []
+    n = 120 if tier == "quick" else 1500
+    for ci in range(n):
+        roots = rnd.sample(["serde", "a", "std", "core", "foo"], 2)
+        k = rnd.choice([2, 3, 3, 4, 5])
+        decls = []
+        for j in range(k):
+            root = rnd.choice(roots)
+            colon = "::" if (j == 0 or rnd.random() < 0.5) else ""
+            if j == 1:
+                root, colon = decls_root, ""          # the same root once with and once without the leading `::`
+            if j == 0:
+                decls_root = root
+            tail = rnd.choice(["X", "de::Visitor", "{A, B}", "m::{self, C}", "*", "Q as R", "m::n::Z"])
+            # one visibility throughout: declarations that differ only in visibility belong to the recorded classes of the main stream
+            decls.append("use " + colon + root + "::" + tail + ";")
+        rnd.shuffle(decls)
+        cfg = [["imports_granularity", rnd.choice(GRAN)], ["group_imports", rnd.choice(["Preserve", "StdExternalCrate", "One"])],
+               ["edition", rnd.choice(["2018", "2021", "2024"])], ["max_width", rnd.choice(["100", "40"])]]
+        cases.append({"text": "\n".join(decls) + "\n", "config": cfg, "again": False, "lex": False})
+    return cases
+
+
 def run(tier, seed, replay):
     import json
     rep = common.Reporter(PROP, tier, seed, "proof")
@@ -278,6 +348,21 @@ def run(tier, seed, replay):
             if rep.violation(key, {"case": show, "out": r["out"], "lost": sorted(si - so), "gained": sorted(so - si)},
                              "imports changed under %s: lost %r gained %r; input %r output %r" % (c["g"], sorted(si - so), sorted(so - si), c["text"], r["out"])):
                 found += 1
+    # imports rooted at `::name` next to imports rooted at `name` (edition >= 2018: two different roots); leaves by the python flattener
+    n_colon = 0
+    if not replay:
+        from . import pool
+        cc = colon_cases(tier, seed)
+        for c, r in zip(cc, common.run_vh_pool("pool", cc, per_case_timeout=15)):
+            if not pool.accepted(r) or not r.get("out"):
+                continue
+            n_colon += 1
+            li, lo = py_leaves(c["text"]), py_leaves(r["out"])
+            if li != lo:
+                if rep.violation("leaves_changed:leading_colon", {"input": c["text"], "config": c["config"], "out": r["out"], "lost": sorted(li - lo), "gained": sorted(lo - li)},
+                                 "imports changed (roots with and without a leading `::`) under %s: lost %r gained %r; input %r output %r" % (c["config"][0][1], sorted(li - lo), sorted(lo - li), c["text"], r["out"])):
+                    found += 1
+    rep.coverage["leading_colon_cases"] = n_colon
     tie_broken = (not cr.ok) or model is None or disagreements
     if tie_broken and found == 0:
         what = []
